@@ -23,7 +23,7 @@ func init() {
 			"(P11-precedence) the target record's own style is the base of the election, an explicit base value wins over the tally, the tally falls back to the default; explicit --date/--time values are not reformatted, configured preferences reformat explicitly, otherwise auto-style; " +
 			"(P11-determine-first) the indentation is read off the first indented line of the block; (P11-defaults) the default style is LF and four spaces and both are accepted by the parser's tables; (P11-valid = P05-makeresult-guard) the result is always re-parsed. " +
 			"Not covered: that determine() reads the right style values off a record, the majority arithmetic itself.",
-		rules: []ruleFn{ruleP11Det, ruleP11StyleSrc, ruleP11Precedence, ruleP11ElectWiring, ruleP11DetermineFirst, ruleP11Defaults, ruleP05MakeResultGuard},
+		rules: []ruleFn{ruleP11Det, ruleP11ArgsPure, ruleP11StyleSrc, ruleP11Precedence, ruleP11ElectWiring, ruleP11DetermineFirst, ruleP11Defaults, ruleP05MakeResultGuard},
 	})
 }
 
@@ -737,6 +737,30 @@ func ruleP11Precedence(p *Prog, r *Report) {
 				}
 				argOK = sawAuto && sawVal
 			}
+			// and it IS executed in every other case: a return that can be reached without passing
+			// the call is guarded by mode == 0 and nothing else
+			skipOK := true
+			bypass := reachableFrom(ap.Blocks[0], map[*ssa.BasicBlock]bool{c.Block(): true})
+			for _, ret := range returnsOf(ap) {
+				if !bypass[ret.Block()] {
+					continue
+				}
+				gs := guardsOf(ret.Block())
+				one := len(gs) == 1
+				if one {
+					bo, ok := gs[0].Cond.(*ssa.BinOp)
+					one = ok
+					if ok {
+						_, fld := fieldLoad(bo.X)
+						k, isK := constInt(bo.Y)
+						one = fld == "mode" && isK && k == 0 && ((bo.Op == token.EQL && gs[0].Pol) || (bo.Op == token.NEQ && !gs[0].Pol))
+					}
+				}
+				if !one {
+					skipOK = false
+				}
+			}
+			r.check(skipOK, rule, "directive:apply:always", p.instrPos(c), "the reformat callback is skipped for the no-reformat directive only", "ReformatDirective.apply skips the reformatting in more cases than the no-reformat directive (e.g. an explicit format that equals the zero value: 12-hour clock, slash dates)")
 			good = notZero && argOK
 		}
 		r.check(good, rule, "directive:apply", p.pos(ap.Pos()), "no-reformat does nothing; explicit uses its own value; auto uses the elected style", "ReformatDirective.apply does not implement none / explicit / auto-style")
